@@ -133,7 +133,7 @@ Section Makes.
     unfold bind at 1. unfold lift at 1.
     destruct (vote_verify c v) as [[]|e|k] eqn:Ev; [|exact HM|exact HM].
     unfold vote_verify in Ev.
-    destruct (Node.stake c (v_author v) =? 0) eqn:Es; [discriminate|]. apply N.eqb_neq in Es.
+    gunf; destruct (0 <? Node.stake c (v_author v)) eqn:Es; [|discriminate]; apply N.ltb_lt in Es; apply N.neq_0_lt_0 in Es; cbn [negb] in *.
     destruct (sig_ok (v_author v) (CVote (v_hash v) (v_round v)) (v_sig v)) eqn:Esig; [|discriminate].
     apply sig_ok_inv in Esig. destruct Esig as [ct' [Esg Hct]].
     assert (Hv : honest (v_author v) = true ->
@@ -176,7 +176,7 @@ Section Makes.
     unfold bind at 1. unfold lift at 1.
     destruct (timeout_verify c t) as [[]|e|k] eqn:Ev; [|exact HM|exact HM].
     unfold timeout_verify in Ev.
-    destruct (Node.stake c (t_author t) =? 0) eqn:Es; [discriminate|]. apply N.eqb_neq in Es.
+    gunf; destruct (0 <? Node.stake c (t_author t)) eqn:Es; [|discriminate]; apply N.ltb_lt in Es; apply N.neq_0_lt_0 in Es; cbn [negb] in *.
     destruct (sig_ok (t_author t) (CTimeout (t_round t) (qc_round (t_high_qc t))) (t_sig t)) eqn:Esig; [|discriminate].
     simpl in Ev.
     assert (Hg : qc_good c me honest w0 s (t_high_qc t)) by (apply ($qc_good_of_verify); auto).
@@ -380,7 +380,7 @@ Section Makes.
     unfold ret at 1. unfold bind at 1. unfold lift at 1.
     destruct (block_verify c b) as [[]|e|k] eqn:Ev; [|exact HM|exact HM].
     unfold block_verify in Ev.
-    destruct (Node.stake c (b_author b) =? 0); [discriminate|].
+    gunf; destruct (0 <? Node.stake c (b_author b)); [|discriminate]; cbn [negb] in *.
     destruct (negb _); [discriminate|].
     destruct (if qc_eqb (b_qc b) qc_genesis then ROk tt else qc_verify c (b_qc b)) as [[]|e|k] eqn:Eqv; try discriminate.
     assert (Gq : qc_good c me honest w0 s (b_qc b)) by (apply ($qc_good_of_verify); auto).
